@@ -867,6 +867,13 @@ func (u *PacketUnderlay) cleanSessions() {
 		}
 		if time.Now().UnixMicro()-session.lastRXTime.Load() > idleSessionTimeout.Microseconds() {
 			log.Debugf("Found idle %v", session)
+			select {
+			case <-session.closedChan:
+			default:
+				// The peer went silent. It never said that its stream ended,
+				// so the reader must not see a clean end of stream.
+				session.recvTruncated.Store(true)
+			}
 			if err := u.RemoveSession(session); err != nil {
 				log.Debugf("%v RemoveSession() failed: %v", u, err)
 			}
